@@ -151,6 +151,18 @@ CHECKS = {
         design_ref='DESIGN.md §5 C15',
         note='C-level stack exhaustion is visible only as subprocess exit status; a per-case timeout counts as not explored',
         technique='TLA+ pipeline model (TLC) + fault enumeration on real callables + deep-nesting subprocess runs validated by TLC'),
+    'C16': dict(
+        category='model_checking',
+        text=("For every rule of the working tree's table an NFA is extracted from its sre parse tree (one macro edge per distinct "
+              "backtracking choice sequence; epsilon closure without empty loop iterations) and emitted as TLA+ constants; TLC explores "
+              "the product automaton (RegexNFA.tla) for the classical exponential-ambiguity criterion (two different paths q -w-> q) and "
+              "reports every ambiguous (rule, pivot). The same run must flag six known-bad patterns (incl. the pre-0.4.4 string rule) and "
+              "none of three polynomial ones. The NFA is bound to re by fullmatch agreement on all class strings up to the bound; for "
+              "every rule prefix+pump^n+suffix strings are tokenized in killable subprocesses under a CPU-time budget."),
+        design_ref='DESIGN.md §5 C16',
+        note=("TLC decides ambiguity of an over-approximating automaton (look-around = epsilon, back-reference = group copy); running "
+              "time itself is measured, not model-checked; a flagged rule counts only if its pump string exceeds the budget"),
+        technique='regex-to-NFA extraction + TLC reachability in the product automaton (EDA) + measured pump strings'),
     'C17': dict(
         category='model_checking',
         text=("Same lock-step composition with the procedural constructs of ScriptGen.tla (CREATE header, DECLARE, nested BEGIN, IF, "
